@@ -91,6 +91,24 @@ def rewrite(g, content, root_kind):
         return new, f"missing->{nk}"
     if x < 0.17:
         return new, "equal->equal"
+    if x < 0.27:
+        # empty a non-empty container in place of itself (same kind, no content)
+        conts = [p for p, _ in g.container_paths(new, 4) if p]
+        full = []
+        for p in conts:
+            t = new
+            for k in p:
+                t = t[k]
+            if len(t):
+                full.append(p)
+        if full:
+            p = r.choice(full)
+            parent = new
+            for k in p[:-1]:
+                parent = parent[k]
+            kind = model.kind_of(parent[p[-1]])
+            parent[p[-1]] = {} if kind == "dict" else []
+            return new, f"{kind}->empty_{kind}"
     p = r.choice(positions)
     parent = new
     for k in p[:-1]:
